@@ -7,6 +7,7 @@
 set -e
 S=${COV_DIR:-/tmp/cov}; mkdir -p $S
 LLVM=$(dirname $(find /root/.rustup/toolchains/nightly-x86_64-unknown-linux-gnu -name llvm-cov | head -1))
+export LLVM_PROFILE_FILE=$S/prof/build-%p.profraw   # build scripts / proc-macros of the instrumented build must not litter the source trees
 (cd /verif/harness && CARGO_NET_OFFLINE=true RUSTFLAGS="--cfg jomini_verif --cfg unoptimized_build -C instrument-coverage" cargo +nightly build --release --offline --target-dir $S/target 2>&1 | tail -1)
 rm -rf $S/prof $S/out; mkdir -p $S/prof $S/out
 props="$@"; [ -z "$props" ] && props=$(for i in $(seq -w 1 20); do echo C$i; done)
